@@ -144,6 +144,27 @@ func runC17(c *Ctx) {
 		r.Check("C17.2", "builtin-loader", ok, c.U.Pos(fn.Pos()), "BuiltinSchema compiles builtinSchemaFile from the embedded file system")
 	}
 
+	// the 'none' schema and a nil schema never reject: the content checks that follow the schema
+	// verdict can only fail when there is a compiled schema
+	if vcf := c.fn("C17.2", "schema", "(*Schema).validateContents"); vcf != nil {
+		_, fails := c.returnsByOutcome(vcf)
+		okNone := true
+		var bad []string
+		for _, fr := range fails {
+			has := false
+			for _, g := range fr.guards {
+				if g == "nonnil($0.schema)" {
+					has = true
+				}
+			}
+			if !has {
+				okNone = false
+				bad = append(bad, c.pos(fr.ret)+" under "+strings.Join(fr.guards, " & "))
+			}
+		}
+		r.Check("C17.2", "none-never-rejects", okNone && len(fails) > 0, c.U.Pos(vcf.Pos()), fmt.Sprintf("every failing return of validateContents (%d) is taken only with a compiled schema: the 'none' schema, like a nil one, accepts every parseable document%s", len(fails), ifMsg(strings.Join(bad, "; "))))
+	}
+
 	// ---- C17.3
 	if vd := c.fn("C17.3", "schema", "(*Schema).ValidateData"); vd != nil {
 		vc := c.callsTo(vd, false, "schema", "(*Schema).validateContents")
@@ -157,6 +178,14 @@ func runC17(c *Ctx) {
 			if ld, ok := arg.(*ssa.UnOp); ok {
 				cell, _ = c.U.CellOf(ld.X).(*ssa.Alloc)
 			}
+			var loaderBytes ssa.Value
+			if lc, ok := vv[0].Common().Args[1].(*ssa.Call); ok && len(lc.Call.Args) == 1 {
+				loaderBytes = lc.Call.Args[0]
+			} else if mi, ok := vv[0].Common().Args[1].(*ssa.MakeInterface); ok {
+				if lc, ok := mi.X.(*ssa.Call); ok && len(lc.Call.Args) == 1 {
+					loaderBytes = lc.Call.Args[0]
+				}
+			}
 			decodes := func(in ssa.Instruction) bool {
 				call, ok := in.(ssa.CallInstruction)
 				if !ok || cell == nil {
@@ -167,7 +196,12 @@ func runC17(c *Ctx) {
 					return false
 				}
 				a := call.Common().Args
-				if len(a) < 2 || a[0] != ssa.Value(vd.Params[1]) {
+				if len(a) < 2 {
+					return false
+				}
+				// what is decoded: the input bytes, or the bytes handed to the schema (the input
+				// converted to JSON)
+				if a[0] != ssa.Value(vd.Params[1]) && a[0] != loaderBytes {
 					return false
 				}
 				// &any, possibly boxed in an interface
@@ -182,8 +216,12 @@ func runC17(c *Ctx) {
 			// schema verdict first, on the same bytes (re-marshalled for YAML)
 			okOrder := ir.MustPassBefore(vd, vc[0].(ssa.Instruction), func(in ssa.Instruction) bool { return in == vv[0].(ssa.Instruction) })
 			d := normExpr(vd, []string{c.exprDesc(vv[0].Common().Args[1])})[0]
-			okDoc := strings.HasPrefix(d, "github.com/xeipuuv/gojsonschema.NewBytesLoader(phi($1|encoding/json.Marshal(")
-			r.Check("C17.3", "same-verdict-both-encodings", okOrder && okDoc, c.pos(vv[0]), "JSON bytes are validated as they are, YAML bytes after conversion to JSON, by the same validate call (found "+d+")")
+			okDoc := d == "github.com/xeipuuv/gojsonschema.NewBytesLoader(phi($1|sigs.k8s.io/yaml.YAMLToJSON($1)#0))"
+			why := ""
+			if strings.Contains(d, "encoding/json.Marshal(") {
+				why = ": the YAML document reaches the schema as the re-marshalled form of a value decoded into interface{}, i.e. with every number rounded to float64 (major: 9223372036854775807 is refused as YAML and accepted as JSON)"
+			}
+			r.Check("C17.3", "same-verdict-both-encodings", okOrder && okDoc, c.pos(vv[0]), "JSON bytes are validated as they are, YAML bytes after a digit-preserving conversion to JSON text (yaml.YAMLToJSON), by the same validate call (found "+d+")"+why)
 			msg := c.errflow(vd, vv[0])
 			r.Check("C17.3", "schema-error-returned", msg == "", c.pos(vv[0]), "a schema violation is returned"+ifMsg(msg))
 			// result of the content check is the result
